@@ -324,3 +324,11 @@ Proof.
   apply arange_len_ok in Hlen as (_ & -> & _).
   rewrite Hd, cdivz_mul by exact Hp. repeat split; lia.
 Qed.
+
+(* the series (and hence its time axis) depends on the data only through the length of the last axis *)
+Theorem ts_shape_only sh1 sh2 a :
+  last sh1 0 = last sh2 0 -> ts_new (with_shape sh1 a) = ts_new (with_shape sh2 a).
+Proof. unfold with_shape. intros ->. reflexivity. Qed.
+
+Lemma with_shape_len sh a : s_len (with_shape sh a) = last sh 0.
+Proof. reflexivity. Qed.
